@@ -38,13 +38,13 @@ Check C12_self_dependency : forall fuel e me ts w,
 Print Assumptions C12_self_dependency.
 
 (* a recorded dependency chain that comes back to a file being checked *)
-Theorem C12_check_cycle : forall fuel runid w c f r mx seen,
+Theorem C12_check_cycle : forall fuel runid cyc w c f r mx seen,
   existsb (Nat.eqb f) seen = true ->
-  is_dirty (S fuel) runid w c f r mx seen = Ret (VCycle, w, c, []).
+  is_dirty (S fuel) runid cyc w c f r mx seen = Ret (VCycle, w, c, []).
 Proof. exact is_dirty_cycle_detected. Qed.
-Check C12_check_cycle : forall fuel runid w c f r mx seen,
+Check C12_check_cycle : forall fuel runid cyc w c f r mx seen,
   existsb (Nat.eqb f) seen = true ->
-  is_dirty (S fuel) runid w c f r mx seen = Ret (VCycle, w, c, []).
+  is_dirty (S fuel) runid cyc w c f r mx seen = Ret (VCycle, w, c, []).
 Print Assumptions C12_check_cycle.
 
 Definition C12_full_statement : Prop :=
@@ -81,3 +81,38 @@ Example C12_oob_cycle_example :
       (run_history h (init_world 0))
   = [None; None; None; Some true; None; None; Some false].
 Proof. vm_compute. reflexivity. Qed.
+
+(* ---- a dependency that was turned round is NOT a cycle (fix F66).  Run 1: b
+   needs a.  Then a.do asks for b and b.do no longer asks for a: the scripts are
+   acyclic at all times, but b's recorded edge b -> a is still in the database
+   when a.do's redo-ifchange b has b checked, a being in mid-build.  The walk
+   does not enter the rows of a target an ancestor is building (the recorded
+   edge makes b dirty, and b's script speaks for itself): both scripts run once,
+   the command exits 0, and the next command runs nothing.  Before the repair
+   the walk went into a's half-written rows, met the new edge a -> b and
+   answered 208. *)
+Example C12_reversed_dependency_is_no_cycle :
+  let mk deps p := {| s_deps := deps; s_ifcreate := nil; s_always := false; s_stamp := false;
+                      s_out := OStdout; s_payload := p; s_cat := false; s_exit := 0%Z; s_tol := false |} in
+  let a := (97 :: nil)%N in let b := (98 :: nil)%N in let s := (115 :: nil)%N in
+  let h := SWrite s (1%N :: nil) :: SWriteDo (a ++ b_do) (mk (s :: nil) 5%N) :: SWriteDo (b ++ b_do) (mk (a :: nil) 6%N)
+           :: SCmd (CIfChange false (a :: nil)) :: SCmd (CIfChange false (b :: nil))
+           :: SWriteDo (a ++ b_do) (mk (s :: b :: nil) 7%N) :: SWriteDo (b ++ b_do) (mk nil 8%N)
+           :: SCmd (CIfChange false (a :: nil)) :: SCmd (CIfChange false (a :: b :: nil)) :: nil in
+  map (fun x => match snd x with
+                | Some (OutBuild evs rc) => Some (rc, length (filter (fun e => match e with EvRun _ _ _ _ => true | _ => false end) evs))
+                | _ => None end) (run_history h (init_world 0))
+  = None :: None :: None :: Some (0%Z, 1%nat) :: Some (0%Z, 1%nat) :: None :: None
+    :: Some (0%Z, 2%nat) :: Some (0%Z, 0%nat) :: nil.
+Proof. vm_compute. reflexivity. Qed.
+
+(* the rule itself: a recorded dependency on a target that an ancestor of the
+   checking process is building is judged "dirty" without being looked at *)
+Theorem C12_dependency_in_mid_build_is_dirty : forall fuel runid cyc w c f r mx seen chg old d ds,
+  existsb (Nat.eqb f) seen = false -> r_failed r = None -> r_changed r = Some chg -> Z.ltb mx chg = false ->
+  chk_is_checked c runid r f = false -> r_stamp r = Some old -> stamp_eqb old (read_stamp w (r_name r)) = true ->
+  deps_of (dbs w) r f = d :: ds -> d_mode d = DModified -> existsb (Nat.eqb (d_source d)) cyc = true ->
+  is_dirty (S fuel) runid cyc w c f r mx seen
+  = Ret (match r_csum r with Some _ => VNeed (f :: nil) | None => VDirty end, w, c, nil).
+Proof. exact is_dirty_dep_in_mid_build. Qed.
+Print Assumptions C12_dependency_in_mid_build_is_dirty.
